@@ -582,7 +582,16 @@ def replay(path):
     if os.path.exists(pb):
         texts.append(open(pb).read())
     model = {int(k): v for k, v in c["model"].items()}
-    fails, _ = evaluate(lib, sd, verd, model, texts, root, "replay", c["masks"])
+    # subsets of the shape of an open finding are not asserted in a replay either (unless the replay is about that subset)
+    findings = common.Findings(os.environ.get("VERIF_FINDINGS") or None)
+    sch = expmodel.Schema(sd)
+    shapes_open = set(e["sig"] for e in findings.open_for(PROP)) & {SHAPE_A, SHAPE_B, SHAPE_C}
+    skip = {}
+    for mask in (c["masks"] or sorted(model)):
+        sh = finding_shape(sch, members_of(sch.order, mask), verd[mask])
+        if sh in shapes_open and mask != c.get("mask"):
+            skip[mask] = sh
+    fails, _ = evaluate(lib, sd, verd, model, texts, root, "replay", c["masks"], skip=skip)
     shutil.rmtree(root, ignore_errors=True)
     if fails:
         common.print_violation(PROP, path, "; ".join(x["what"] for x in fails[:5]) + "\ngraph: " + graph_text(sd))
